@@ -76,5 +76,11 @@ CLAIMED["C19"] = dict(
     note="Trusted: the kind-inference heuristics in sa/props/c19.py (unknown kinds are not flagged); E5 summaries for which node classes exist.",
 )
 
+CLAIMED["C04"] = dict(
+    technique="structural check of the floor analyses (denylist contents, CFG-dominated severities, prefix-coverage idiom, exact std-lib predicate and exemption), registration chain, view completeness via the E5 unbound-call set, and an interference analysis of the shared already-reported set over Analysis.ALL order",
+    level="Decides that each floor rule exists with at least the stated severity over the documented vocabulary, is registered and run by the default analyzer, sees every call and import statement of the decompiled program (opcode choice, memo use, the fate of the return value cannot hide one - together with C03), and cannot be silenced by an earlier analysis through the de-duplication set. The verdict of a particular program depends on unparse text and on name collisions with stdlib imports (the flow-insensitive likely-safe exemption) and is not decided.",
+    note="Trusted: the documented vocabulary frozen in DOC_DANGEROUS/DOC_BAD_CALLS (from the property text); stdlib_list's data; class-definition order = Analysis.ALL order (analysis.py before ml.py).",
+)
+
 _NOT_YET = "checker not built yet in this session (planned per DESIGN.md section 3); nothing is claimed until it exists"
 NOT_APPLICABLE = {p: _NOT_YET for p in [f"C{i:02d}" for i in range(1, 20)]}
